@@ -11,6 +11,12 @@ From J5V.proofs Require Import CmpbOrderProofs.
 Import ListNotations.
 Local Open Scope N_scope.
 
+(* ---- the property at full strength over the order-parameterised model *)
+Definition C14_full_statement : Prop := full_statement.
+Theorem C14_full : C14_full_statement.
+Proof. exact full_statement_holds. Qed.
+Print Assumptions C14_full.
+
 (* ---- the accounting of the Go code's unordered iterations *)
 Theorem C14_order_sites_agree : order_sites_same_set = true.
 Proof. exact order_sites_agree. Qed.
@@ -20,7 +26,7 @@ Print Assumptions C14_order_sites_agree.
    map and of the package's file map, any fuel, any history of earlier CompilePackage calls on the
    PackageSet (fresh = empty history): the same files, in the same order, with the same content *)
 Theorem C14_compile_deterministic :
-  forall (F D : Type) (convert : env -> @srcfile F -> D) (b : @bundle F), valid b ->
+  forall (F D : Type) (convert : env -> @srcfile F -> bytes -> D) (b : @bundle F), valid b ->
   forall lf1 rd1 rf1 lf2 rd2 rf2,
     (forall n l, Permutation (lf1 n l) l) -> (forall n l, Permutation (rd1 n l) l) -> (forall n l, Permutation (rf1 n l) l) ->
     (forall n l, Permutation (lf2 n l) l) -> (forall n l, Permutation (rd2 n l) l) -> (forall n l, Permutation (rf2 n l) l) ->
@@ -31,15 +37,50 @@ Theorem C14_compile_deterministic :
 Proof. exact @compile_deterministic. Qed.
 Print Assumptions C14_compile_deterministic.
 
+(* total form: acyclic dependencies (a rank decreasing along them), all present in the bundle, more fuel
+   than the rank: EVERY run returns, with the package as the bundle alone determines it (the Go code
+   needs no fuel: it recurses along the same relation and reports cycles) *)
+Theorem C14_compile_total_deterministic :
+  forall (F D : Type) (convert : env -> @srcfile F -> bytes -> D) (b : @bundle F) rank,
+  valid b -> well_founded_deps b rank ->
+  forall lf rd rf,
+    (forall n l, Permutation (lf n l) l) -> (forall n l, Permutation (rd n l) l) -> (forall n l, Permutation (rf n l) l) ->
+  forall fuel earlier n, find_pkg n b <> None -> (rank n < fuel)%nat ->
+    exists c, compile_package convert lf rd rf fuel b (compile_seq convert lf rd rf fuel b [] earlier) n
+              = Some (c, p_files (spec_pkg convert b n)).
+Proof. exact @compile_total_deterministic. Qed.
+Print Assumptions C14_compile_total_deterministic.
+
 (* what it returns: the package as a function of the bundle alone *)
 Theorem C14_compile_package_spec :
-  forall (F D : Type) (convert : env -> @srcfile F -> D) lf rd rf,
+  forall (F D : Type) (convert : env -> @srcfile F -> bytes -> D) lf rd rf,
     (forall n l, Permutation (lf n l) l) -> (forall n l, Permutation (rd n l) l) -> (forall n l, Permutation (rf n l) l) ->
   forall (b : @bundle F), valid b -> forall fuel c n c' out, cache_ok convert b c ->
     compile_package convert lf rd rf fuel b c n = Some (c', out) ->
     out = p_files (spec_pkg convert b n) /\ cache_ok convert b c'.
 Proof. exact @compile_package_spec. Qed.
 Print Assumptions C14_compile_package_spec.
+
+(* ---- the link phase of CompilePackage (resolveAll over the sorted names; resolveFile recursion along the
+   Dependency lists; SearchResult.Linked cached in the PackageSet across calls): whatever consistent
+   cache earlier calls left (the empty one of a fresh set included) and whatever the fuels, two runs that
+   return, return the same linked files; a returned file is what linking it yields without any cache.
+   Parameters: findFileByPath, a descriptor's Dependency list, linking one file given its linked imports.
+   The per-call symbol table is not modelled (it only rejects duplicate symbols: invalid bundles) *)
+Theorem C14_link_deterministic :
+  forall (D L : Type) (lookup : bytes -> option D) (deps_of : D -> list bytes) (link1 : D -> list L -> L)
+         fuel1 fuel2 names c1 c2 c1' c2' ls1 ls2,
+    link_cache_ok lookup deps_of link1 c1 -> link_cache_ok lookup deps_of link1 c2 ->
+    link_all lookup deps_of link1 fuel1 c1 names = Some (c1', ls1) ->
+    link_all lookup deps_of link1 fuel2 c2 names = Some (c2', ls2) -> ls1 = ls2.
+Proof. exact @link_all_deterministic. Qed.
+Print Assumptions C14_link_deterministic.
+Theorem C14_link_cache_transparent :
+  forall (D L : Type) (lookup : bytes -> option D) (deps_of : D -> list bytes) (link1 : D -> list L -> L) fuel c n c' l,
+    link_cache_ok lookup deps_of link1 c -> link_file lookup deps_of link1 fuel c n = Some (c', l) ->
+    (exists f, spec_link lookup deps_of link1 f n = Some l) /\ link_cache_ok lookup deps_of link1 c'.
+Proof. exact @link_file_spec. Qed.
+Print Assumptions C14_link_cache_transparent.
 
 (* ---- the generated file's import list depends only on the SET of files passed to ensureImport *)
 Theorem C14_imports_order_irrelevant : forall c1 c2, (forall x, In x c1 <-> In x c2) -> ensure_all c1 = ensure_all c2.
@@ -105,6 +146,16 @@ Example C14_example_imports :
   (* "j5/ext", "buf/validate", "j5/ext" again, in two different call orders *)
   ensure_all [[106;53]; [98;117]; [106;53]] = [[98;117]; [106;53]] /\ ensure_all [[98;117]; [106;53]] = [[98;117]; [106;53]].
 Proof. vm_compute. split; reflexivity. Qed.
+Example C14_example_link :
+  (* a imports b; linking [a; b] with an empty cache and linking [a; b] after b was linked alone agree *)
+  let lookup := fun n : bytes => match n with [97] => Some [[98]] | [98] => Some [] | _ => None end in
+  let deps_of := fun d : list bytes => d in
+  let link1 := fun (d : list bytes) (ls : list N) => (1 + fold_left N.add ls 0)%N in
+  exists c1 c2 c3 out,
+    link_all lookup deps_of link1 3 [] [[97]; [98]] = Some (c1, out)
+    /\ link_all lookup deps_of link1 3 [] [[98]] = Some (c2, [1%N])
+    /\ link_all lookup deps_of link1 3 c2 [[97]; [98]] = Some (c3, out) /\ out = [2%N; 1%N].
+Proof. cbv zeta. eexists. eexists. eexists. eexists. repeat split; vm_compute; reflexivity. Qed.
 Example C14_example_options :
   (* (j5.ext.v1.psm) and (buf.validate.message): both extension 0 of their files, no source line *)
   let psm := mkOpt 0 0 [106] [106] in let val := mkOpt 0 0 [98] [98] in
@@ -116,14 +167,14 @@ Qed.
 (* a two-package bundle: bar.v1 depends on foo.v1; listing foo's files in reverse, iterating maps in
    reverse, and having compiled bar.v1 earlier, returns the same two files *)
 Example C14_example_compile :
-  let fa := mkFile [97] [[65]] [] tt in let fb := mkFile [98] [[66]] [] tt in
-  let fc := mkFile [99] [[67]] [[102]] tt in
+  let fa := mkFile [97] [[65]] [] [[97]; [97;115]] tt in let fb := mkFile [98] [[66]] [] [[98]] tt in
+  let fc := mkFile [99] [[67]] [[102]] [[99]] tt in
   let b : @bundle unit := [([102], [fa; fb]); ([103], [fc])] in
-  let conv := fun (e : env) (f : @srcfile unit) => (f_name f, e_own e) in
+  let conv := fun (e : env) (f : @srcfile unit) (o : bytes) => (f_name f, o, e_own e) in
   let idp := fun (_ : bytes) (l : list bytes) => l in
   exists c1 c2 out,
     compile_package conv (fun _ l => l) idp idp 5 b [] [102] = Some (c1, out)
     /\ compile_package conv (fun _ l => rev l) (fun _ l => rev l) (fun _ l => rev l) 5 b
          (compile_seq conv (fun _ l => rev l) (fun _ l => rev l) (fun _ l => rev l) 5 b [] [[103]]) [102] = Some (c2, out)
-    /\ length out = 2%nat.
+    /\ length out = 3%nat.
 Proof. cbv zeta. eexists. eexists. eexists. split; [vm_compute; reflexivity|split; vm_compute; reflexivity]. Qed.
